@@ -34,7 +34,8 @@ def _head():
 def _replay_worker(arg):
     modname, case = arg
     mod = importlib.import_module(modname)
-    return mod.replay(case)
+    # plain JSON types only: DOM Text objects are str subclasses that cannot cross the process boundary
+    return core.jsonable(mod.replay(case))
 
 
 def write_replay(pid, tier, cand):
